@@ -6,6 +6,21 @@ UNITS = {
     'V-SYM': {'engine': 'verus', 'file': 'v_sym.unit'},
     'V-ENC': {'engine': 'verus', 'file': 'v_enc.unit'},
     'V-ASCII': {'engine': 'verus', 'file': 'v_ascii.unit'},
+    'K-GF': {'engine': 'kani', 'file': 'k_gf.rs', 'module_file': 'src/errorcode/galois.rs',
+             'functions': ['GF::mul', 'GF::div', 'GF::add', 'GF::sub', 'GF::neg', 'GF::mul<usize>', 'GF::primitive_power', 'GF::log', 'GF::{add,sub,mul,div}_assign'],
+             'harnesses': [
+                 {'name': 'gf_mul_all_pairs', 'kind': 'complete', 'timeout': 120},
+                 {'name': 'gf_div_all_pairs', 'kind': 'complete', 'timeout': 120},
+                 {'name': 'gf_add_sub_neg_all_pairs', 'kind': 'complete', 'timeout': 60},
+                 {'name': 'gf_primitive_power_and_log', 'kind': 'complete', 'timeout': 120},
+                 {'name': 'gf_mul_assign_matches', 'kind': 'complete', 'timeout': 120},
+             ]},
+    'K-CHIEN1': {'engine': 'kani', 'file': 'k_chien1.rs', 'module_file': 'src/errorcode/decoding/mod.rs',
+             'functions': ['chien_search (degree <= 1 branch)'],
+             'harnesses': [
+                 {'name': 'chien_degree_one_all_coefficients', 'kind': 'complete', 'timeout': 120},
+                 {'name': 'chien_empty_and_constant', 'kind': 'complete', 'timeout': 60},
+             ]},
 }
 
 STANDING_ASSUMPTIONS = [
